@@ -22,10 +22,10 @@ class PropertyViolation(Exception):
     pass
 
 
-def _faulty1(cls):
+def _faulty1(cls, fault=None):
     def f(e):
         if isinstance(e, cls):
-            raise UserFault("injected")
+            raise (fault or UserFault)("injected")
         return True
     return f
 
@@ -81,14 +81,19 @@ class Pool:
 
             def __call__(self, *a):
                 return False
-        self.filters2 = [None, accept, reject, selective, faulty, FalsyReject()]
+        def faulty_as(fault):
+            def faulty_k(e, v):
+                raise fault("injected")             # at every invocation: any vertex with a link that is looked at will do
+            return faulty_k
+        # a user callback may raise an exception of ANY class, also one the library (or an iterator protocol) treats specially
+        self.filters2 = [None, accept, reject, selective, faulty, FalsyReject()] + [faulty_as(k) for k in FAULT_CLASSES[1:]]
         self.rfilters = [None, lambda v: True, lambda v: v is not V0, lambda v: []]
         for k_, v_ in enumerate(self.V):
             v_.tag = k_ % 2
         for k_, v_ in enumerate(self.V + self.U):
             v_.pname = "n%d" % k_                  # a unique printable name (title format of the PlantUML operation)
         self.filters1 = [None, lambda e: True, lambda e: 0, lambda e: isinstance(e, E["DirectedEdge"]),
-                         _faulty1(E["UnDirectedEdge"]), FalsyReject()]
+                         _faulty1(E["UnDirectedEdge"]), FalsyReject()] + [_faulty1(E["UnDirectedEdge"], k) for k in FAULT_CLASSES[1:]]
 
     def vert(self, i):
         if i is None or i < 0:
@@ -600,7 +605,7 @@ def op_table():
         def cb(*a):
             count[0] += 1
             if fault_at > 0 and count[0] == fault_at:
-                raise UserFault("injected")
+                raise FAULT_CLASSES[(sortk // 2) % len(FAULT_CLASSES)]("injected")
             return "x%d" % (count[0] % 3)
         before = observable(P)
         kind = kind % 4
@@ -616,8 +621,8 @@ def op_table():
                 P.mods["nrpickler"].dumps(uni)
         except UserFault:
             pass
-        except (NotImplementedError, IndexError, AttributeError, ValueError, AssertionError, TypeError, KeyError):
-            pass
+        except (NotImplementedError, IndexError, AttributeError, ValueError, AssertionError, TypeError, KeyError, RuntimeError):
+            pass                # RuntimeError: a StopIteration raised by the callback inside a generator expression (PEP 479)
         after = observable(P)
         if before != after:
             diff = [k for k in before if before[k] != after.get(k)] + [k for k in after if k not in before]
@@ -1201,6 +1206,29 @@ class UserFault(Exception):
     _pyvc_user = True
 
 
+class UserStop(UserFault, StopIteration):
+    pass
+
+
+class UserAttributeError(UserFault, AttributeError):
+    pass
+
+
+class UserAssertionError(UserFault, AssertionError):
+    pass
+
+
+class UserKeyError(UserFault, KeyError):
+    pass
+
+
+class UserIndexError(UserFault, IndexError):
+    pass
+
+
+FAULT_CLASSES = [UserFault, UserStop, UserAttributeError, UserAssertionError, UserKeyError, UserIndexError]
+
+
 OPS = op_table()
 
 
@@ -1447,6 +1475,8 @@ def random_history(rng, groups, length, weights=None, lo=-1, hi=3):
                 a = rng.randint(lo, hi)
             args.append(a)
             used.append(a)
+        if n in WIDE_LAST and rng.random() < 0.5:
+            args[-1] = rng.randint(4, 12)               # the filter argument: reach every entry of the filter tables (incl. the raising ones)
         if n in SEEDED_OPS:
             args[0] = rng.randrange(10 ** 6)          # the first argument seeds the generated input (dict / matrix / RNG state)
             args[1:] = [rng.randint(-1, 12) for _ in args[1:]]
@@ -1455,6 +1485,7 @@ def random_history(rng, groups, length, weights=None, lo=-1, hi=3):
 
 
 SEEDED_OPS = ("adj_dict", "adj_matrix", "randgraph")
+WIDE_LAST = ("query_neighbors", "find_links")
 
 
 def systematic_histories(groups, reach, focus, cap=4000):
